@@ -62,6 +62,7 @@ type fileCtx struct {
 	info      *types.Info
 	edits     []edit
 	usesVrt   bool
+	fpName    string // local name of the path/filepath import when filepath.Abs was rewritten
 	sysName   string // local name of the syscall import when a raw descriptor call was rewritten (kept alive at the end of the file)
 	handled   map[ast.Node]bool
 	recv2     map[*ast.UnaryExpr]bool
@@ -187,6 +188,11 @@ func (c *fileCtx) collect() {
 					c.usesVrt = true
 					c.sysName = id.Name
 					c.add(s.Pos(), s.End(), func() string { return "zzvrt.Sys" + s.Sel.Name })
+				} else if ok && pn.Imported().Path() == "path/filepath" && s.Sel.Name == "Abs" {
+					// the working directory is the modelled process's, not the harness's
+					c.usesVrt = true
+					c.fpName = id.Name
+					c.add(s.Pos(), s.End(), func() string { return "zzvrt.FilepathAbs" })
 				}
 			}
 		case *ast.ChanType:
@@ -577,6 +583,11 @@ func main() {
 			e := sf.f.End()
 			name := c.sysName
 			c.edits = append(c.edits, edit{c.off(e), c.off(e), func() string { return "\nvar _ = " + name + ".EINVAL // (instrumenter) keeps the import in use\n" }})
+		}
+		if c.fpName != "" {
+			e := sf.f.End()
+			name := c.fpName
+			c.edits = append(c.edits, edit{c.off(e), c.off(e), func() string { return "\nvar _ = " + name + ".Clean // (instrumenter) keeps the import in use\n" }})
 		}
 		if c.usesVrt {
 			// import on the package clause line keeps line numbers intact
